@@ -53,6 +53,22 @@ def make_case(rng, idx):
     sc = prims.Scene(rng, structured=bool(rng.random() < 0.8))
     p1 = prims.make(k1, sc); p2 = prims.make(k2, sc)
     sc.contact = False
+    if p1.kind == "point" and p2.kind in ("circle", "disk", "cylinder", "ellipsoid", "ellipsoid_surface", "box") and rng.random() < 0.1:
+        # exactly on the symmetry axis: integer centre, coordinate-axis normal, dyadic offset (in-plane part exactly zero)
+        k = int(rng.integers(3)); e = np.zeros(3); e[k] = float(rng.choice([-1.0, 1.0]))
+        c = rng.integers(-5, 6, size=3).astype(float)
+        t = float(rng.choice([0.0, 0.5, -0.5, 1.0, -2.0, 4.0, 0.25]))
+        if p2.kind in ("circle", "disk"):
+            p2 = prims.rebuild(p2.kind, (c, p2.args[1], e))
+        else:
+            R = np.eye(3)[:, [(k + 1) % 3, (k + 2) % 3, k]] * np.array([1.0, 1.0, e[k]])
+            if np.linalg.det(R) < 0:
+                R[:, 0] *= -1
+            T = np.eye(4); T[:3, :3] = R; T[:3, 3] = c
+            p2 = prims.rebuild(p2.kind, (T,) + tuple(p2.args[1:]))
+        p1 = prims.rebuild("point", (c + t * e,))
+        sc.contact = True
+        return name, fname, kwargs, sc, p1, p2
     if rng.random() < 0.25:
         # contact class: a point of the first primitive coincides with a point of the second (true distance 0,
         # lines piercing triangles/rectangles/boxes, primitives touching at a feature)
